@@ -143,3 +143,8 @@ def t_update_all(sess):
                and c[1]["pathline"] is path and c[1].get("atol") == 7 for c in cs)
     sess.prove("update_all: every mineral receives the same starting F, params, velocity-gradient callable, pathline and solver options", p.pc, z3.BoolVal(same))
     sess.prove("update_all: the last mineral's deformation gradient is returned", p.pc, all_eq(out, quat.symmat("Fout_c_")))
+
+
+def default_cex(name):
+    """Generic public-API replay for verdicts that carry no more specific counterexample."""
+    return {"replay": "vf.props.replays:c06_defgrad", "case": {}, "cls": {"kind": "returned deformation gradient does not solve dF/dt = L F"}}
